@@ -228,6 +228,13 @@ def snapshot_cases(prog, sched, ext_menu=()):
                 snap_err = ""
             except Exception as ex:  # noqa: BLE001
                 snap, snap_err = None, type(ex).__name__ + ":" + str(ex)[:100]
+            # both continuations first let the running bodies finish (in the resumed run: the re-executed ones, which
+            # re-arm their waiters), then get the remaining external inputs of the schedule, then run to the end
+            rest = [c for c in sched[k:] if c[0] == "send"]
+            if rest:
+                s.drain()
+            for c in rest:
+                s.apply(c)
             run_to_end(s)
             ref = _summary(s)
         finally:
@@ -259,10 +266,11 @@ def snapshot_cases(prog, sched, ext_menu=()):
             except Exception as ex:  # noqa: BLE001
                 rec["resume_err"] = type(ex).__name__ + ":" + str(ex)[:100]
             if not rec["resume_err"]:
-                # replay the remaining external inputs of the schedule, then run to the end
-                for c in sched[k:]:
-                    if c[0] == "send":
-                        s2.apply(c)
+                # the remaining external inputs of the schedule (as in the reference), then run to the end
+                if rest:
+                    s2.drain()
+                for c in rest:
+                    s2.apply(c)
                 run_to_end(s2)
             rec["res"] = _summary(s2)
             post = {}
@@ -276,5 +284,56 @@ def snapshot_cases(prog, sched, ext_menu=()):
             rec["fails"] = [{"key": key, "n": v, "step": key.split("/")[0]} for key, v in sorted(fails.items())]
         finally:
             s2.close()
+        # a second pause on the resumed run: resume, let one or two bodies finish, serialise again (ckpt = the run that was
+        # merely checkpointed goes on to its end; res2 = the second snapshot resumed in yet another workflow object)
+        rec.update(two=False, ckpt=rec["res"], res2=rec["res"], pending_retry2=False, inprog_recovered2=False, snap2_err="")
+        same = all(rec["res"][f] == ref[f] for f in ("kind", "detail", "store"))
+        if not rec["resume_err"] and same:
+            s3 = en.EngineSystem(prog, observe_c11=False)
+            snap2 = None
+            try:
+                s3.run_no = 1
+                s3.resume_from(snap)
+                if rest:
+                    s3.drain()
+                for c in rest:
+                    s3.apply(c)
+                # a checkpoint after each of the next few completed bodies (to_dict has no effect on the run); the last
+                # one taken while the run is still live is the one resumed below
+                for _m in range(2 + k % 3):
+                    g = s3.rig.open_gates()
+                    if s3.outcome is not None or not g:
+                        break
+                    s3.apply(["release", g[0][0], g[0][1], g[0][2], g[0][3]])
+                    if s3.outcome is not None:
+                        break
+                    pr2 = any(tk.__class__.__name__ == "TickAddEvent" for r_ in en._RUNNERS.values()
+                              for (_a, _s, tk) in r_.scheduled_wakeups)
+                    ir2 = any(bool(ip.recovery_counts) for r_ in en._RUNNERS.values()
+                              for w in r_.state.workers.values() for ip in w.in_progress)
+                    try:
+                        snap2 = _json.loads(_json.dumps(s3.handler.ctx.to_dict()))
+                        rec["pending_retry2"], rec["inprog_recovered2"] = bool(pr2), bool(ir2)
+                        rec["two"] = True
+                    except Exception as ex:  # noqa: BLE001
+                        rec["snap2_err"] = type(ex).__name__ + ":" + str(ex)[:100]
+                        rec["two"] = True
+                        break
+                if rec["two"]:
+                    run_to_end(s3)
+                    rec["ckpt"] = _summary(s3)
+            finally:
+                s3.close()
+            if snap2 is not None:
+                s4 = en.EngineSystem(prog, observe_c11=False)
+                try:
+                    s4.run_no = 1
+                    s4.resume_from(snap2)
+                    run_to_end(s4)
+                    rec["res2"] = _summary(s4)
+                except Exception as ex:  # noqa: BLE001
+                    rec["snap2_err"] = "resume:" + type(ex).__name__ + ":" + str(ex)[:100]
+                finally:
+                    s4.close()
         cases.append(rec)
     return cases
